@@ -496,6 +496,15 @@ def distribution(cases, obs):
 
 # --------------------------------------------------------------------------- Gallina emitter
 
+def _n(x):
+    """status None (unparsable reply) is emitted as 0; the oracle has already failed such a case"""
+    return x if isinstance(x, int) and x >= 0 else 0
+
+
+def _t(x):
+    return x if isinstance(x, int) and x >= 0 else None
+
+
 def to_coq(case, obs):
     """Schedule with completion flags taken from the observed trace; replies consumed in order."""
     evs = []
@@ -528,8 +537,8 @@ def to_coq(case, obs):
     tr = coq_list(["(%s, %s, %s, %s)" % (coq_bool(t[1]), coq_N(t[2]), coq_N(t[3]), coq_N(t[4])) for t in trace],
                   "bool * N * N * N")
     ents = coq_list(["{| HttpClient.e_status := %s; HttpClient.e_tag := %s; HttpClient.e_errored := %s; HttpClient.e_history := %s |}" % (
-        coq_N(e["status"]), coq_option(e["tag"], coq_N, "N"), coq_bool(e["errored"]),
-        coq_list(["(%s, %s)" % (coq_N(h[0]), coq_option(h[1], coq_N, "N")) for h in e["history"]], "N * option N"))
+        coq_N(_n(e["status"])), coq_option(_t(e["tag"]), coq_N, "N"), coq_bool(e["errored"]),
+        coq_list(["(%s, %s)" % (coq_N(_n(h[0])), coq_option(_t(h[1]), coq_N, "N")) for h in e["history"]], "N * option N"))
         for e in obs["entries"]], "HttpClient.entry")
     wire = coq_list(["{| HttpClient.w_conn := %s; HttpClient.w_https := %s; HttpClient.w_host := %s; HttpClient.w_item := %s |}" % (
         coq_N(w[0]), coq_bool(w[1]), coq_N(w[2]),
